@@ -20,7 +20,11 @@ for name in sorted(os.listdir("/verif/seeded")):
             meta["detected_by"] = det
             meta["matrix"] = "tools/matrix.sh: patch applied in a scratch worktree of /repo HEAD, every check's quick tier run with VERIF_REPO pointing at it"
             json.dump(meta, open(mp, "w"), indent=1)
-    rows.append("| %s | %s | %s |" % (name, ",".join(meta.get("breaks", [])), ", ".join(meta.get("detected_by", [])) or "none"))
+        if res and res.get("applies") is False:
+            meta["applies_to_head"] = False
+            json.dump(meta, open(mp, "w"), indent=1)
+    tail = " (the patch no longer applies to the repaired tree: last evaluation kept)" if meta.get("applies_to_head") is False else ""
+    rows.append("| %s | %s | %s%s |" % (name, ",".join(meta.get("breaks", [])), ", ".join(meta.get("detected_by", [])) or "none", tail))
 table = "| change | breaks (as targeted) | detected by |\n|---|---|---|\n" + "\n".join(rows) + "\n"
 p = "/verif/DESIGN.md"
 s = open(p).read()
